@@ -143,6 +143,8 @@ int  sk_nfds(int p);
 unsigned char sk_pattern(int tag, long off);
 void sk_logev(int kind, int a, int b, int c, int r);
 void sk_mon(int code, int a, int b);
+void sk_set_sigact(int sig, int flags, uint64_t mask);  /* the caller installs a handler with these flags / mask */
+int  sk_sigact_intact(int sig);                        /* ... and they are still what the caller set */
 int  sk_nalloc(void);
 int  sk_is_alloc(const void *p);  /* is p a live allocation made by the library (allocation ledger)? */
 void sk_fs_add(const char *path, int flags); /* flags: 1 exists, 2 executable, 4 directory, 8 unopenable(EACCES) */
